@@ -72,7 +72,7 @@ PROP = {'gen': [],
  'technique': 'Coq proof (generic tokeniser theorems of C03 + per-decoder totality lemmas + reflection certificates over the regenerated '
               'automata) + model/implementation correspondence with crash observation in a child process',
  'design_ref': 'DESIGN.md 6.2',
- 'n_quick': 4200,
+ 'n_quick': 2800,
  'n_thorough': 20000,
  'shard': 125,
  'level': 'proof',
@@ -80,11 +80,13 @@ PROP = {'gen': [],
                   'hand-written models Decoder/Payload.v (payload decoders, number_decode, utf8_decode) and Decoder/Events.v (wrappers, '
                   'Utf8Decoder), tied to the code by the correspondence run',
                   'verif-hooks dump of the compiled automata and translate/dfa.py (Gen/ProdDFA.v: tables, matcher order, DecMode code '
-                  'lists)',
+                  'lists, CUBE / GREYS / COLORS)',
                   'opaque total functions: rasterize RGBA::from_str, String::from_utf8_lossy, FaceModify::apply / FaceAttrs (only the colours '
                   'of FaceGet are modelled)',
                   HARNESS],
  'assumptions': ['the BufRead handed to decode exposes all bytes of the read in one fill_buf (Cursor, &[u8])',
                  '64-bit target: usize = u64',
                  'kitty keyboard modifiers are a bit set: KeyMod::from_bits keeps the nine known bits of (m - 1) by design (a mask, not a '
-                 'wrapped numeric field)']}
+                 'wrapped numeric field); an SGR mouse button code is a bit field whose bits above 7 are ignored',
+                 'theorems describe the debug-profile semantics (overflow = panic); the release profile is covered by the thorough-tier '
+                 'cross-check (tools/releasecheck.py: identical observations required)']}
